@@ -197,6 +197,7 @@ def c15(tier):
             def entry(m):
                 m.pc.append(K >= 0)
                 sink = Sink(fail_at=K)
+                sink.once = z3.Bool('fail_once')
                 try:
                     r2, sink = H.write_xml(m, doc, sink)
                 except Panic as e:
@@ -214,6 +215,7 @@ def c15(tier):
             for m, out in res:
                 failed_at = [e[1] for e in m.events if e[0] == 'sink_fail']
                 ekind = next((e[1] for e in m.events if e[0] == 'err_kind'), None)
+                once = any(e[0] == 'sink_mode' for e in m.events)
                 if out[0] == 'panic':
                     k = failed_at[0] if failed_at else getattr(out[1], 'sink_n', None)
                     bad.append(('panic', k, str(out[1]), out[1].where))
@@ -223,7 +225,7 @@ def c15(tier):
                     r2, sink = out[1]
                     if failed_at:
                         if r2.variant == 0:
-                            bad.append(('false-success', failed_at[0], 'write_xml returned Ok although write call %d failed%s' % (failed_at[0], (' with io::ErrorKind::' + ekind) if ekind else ''), 'kind=' + str(ekind)))
+                            bad.append(('false-success', failed_at[0], 'write_xml returned Ok although write call %d failed%s%s' % (failed_at[0], (' with io::ErrorKind::' + ekind) if ekind else '', ' (only that call fails; later calls are accepted)' if once else ''), 'kind=' + str(ekind), once))
                         else:
                             e = deref(r2.fields[0])
                             is_io = isinstance(e, Adt) and e.name == 'WriterError' and ENUMS['WriterError'][e.variant] == 'Io'
@@ -266,7 +268,8 @@ def c15(tier):
                                   violations=[b[:3] for b in bad][:5], fail_at='symbolic k in [0, %d]' % N))
             # replay every distinct violation class natively
             seen = set()
-            for kind, k, msg, where in bad:
+            for kind, k, msg, where, *rest in bad:
+                once = bool(rest and rest[0])
                 fn = re.sub(r'<impl at [^>]*>', '<impl>', where or '')
                 ek = None
                 if fn.startswith('kind='):
@@ -282,13 +285,13 @@ def c15(tier):
                 d = tempfile.mkdtemp(prefix='zeep-verif-c15.')
                 try:
                     write_files(d, files)
-                    rc, out, _ = native.run_driver(driver, d, name, os.path.join(d, '__o'), fail_at=k, kind=ek)
+                    rc, out, _ = native.run_driver(driver, d, name, os.path.join(d, '__o'), fail_at=k, kind=ek, once=once)
                 finally:
                     rmtree(d)
                 s.replays += 1
                 native_bad = ('PANIC' in out) if kind == 'panic' else ('RUN 0: OK' in out) if kind == 'false-success' else ('WRITE_ERR Io' not in out)
                 rdir = save_replay('C15', '%s_k%d' % (name, k), dict(list(files.items()) + [
-                    ('replay.sh', '#!/bin/sh\n# sink fails at write call %d\n%s gen . %s out --fail-at %d\n' % (k, driver, name, k)),
+                    ('replay.sh', '#!/bin/sh\n# sink fails at write call %d\n%s gen . %s out --fail-at %d%s\n' % (k, driver, name, k, ' --once' if once else '')),
                     ('native_output.txt', out), ('finding.txt', '%s at write call %d: %s\nin %s\n' % (kind, k, msg, where))]))
                 if native_bad:
                     s.rep.violation(key, '%s: sink failure at write call %d -> %s (%s)' % (name, k, kind, msg), rdir)
@@ -312,11 +315,11 @@ def c15(tier):
             rd = save_replay('C15', 'direct_write', {'finding.txt': 'direct io::Write::write calls in: %s\n' % sorted(set(direct))})
             s.rep.violation('c15/direct-write', 'zeep calls io::Write::write directly (short writes may lose bytes): %s' % sorted(set(direct))[:3], rd)
     return run_e2('C15', tier, body, level='model_checking',
-                  bounds='failure index k symbolic over [0, N] (N = number of write!/writeln! calls of the document, 50..400) per corpus document; '
+                  bounds='failure index k symbolic over [0, N] (N = number of write!/writeln! calls of the document, 50..400) x symbolic failure mode (persistent from call k on / only call k fails) per corpus document; '
                          'corpus: all-emitters WSDL + repository fixtures; error kind abstract (one io::Error). Short writes: reduced to the MIR call-graph '
                          'fact that zeep only calls write_fmt (std loops until the buffer is written). Outside: documents not in the corpus.',
                   extra_assumptions=['the reader part is run concretely once per document; write_xml does not mutate the document',
-                                     'failure granularity = one write!/writeln! call (io::Write::write_fmt)'])
+                                     'failure granularity = one write!/writeln! call (io::Write::write_fmt) or one flush of a std::io::BufWriter into the sink (buffer capacity not modelled: one flush = one call)'])
 
 
 # ================================================================================================ scenario runner
